@@ -216,55 +216,31 @@ theorem tracker_handoff (ops : List Op) (r : Replica) (src : Option Snap) (hw : 
     simp
 
 theorem no_other_calls (ops : List Op) (r : Replica) (src : Option Snap) (e : Ev) :
-    (stepR ops r src e).2.calls ≠ [] → e = .apply ∧ (stepR ops r src e).2.res = .ok := by
-  intro h
-  cases e with
-  | apply =>
-    refine ⟨rfl, ?_⟩
-    unfold stepR at h ⊢
-    dsimp only at h ⊢
-    by_cases hup : (!r.up) = true
-    · rw [if_pos hup] at h; exact absurd rfl h
-    · rw [if_neg hup] at h ⊢
-      cases hop : ops[r.applied]? with
-      | none => rw [hop] at h; exact absurd rfl h
-      | some op =>
-        rw [hop] at h
-        dsimp only at h ⊢
-        by_cases hd : (!op.decodable) = true
-        · rw [if_pos hd] at h; exact absurd rfl h
-        · rw [if_neg hd] at h ⊢
-          by_cases hp : (r.poisoned && op.isPin) = true
-          · rw [if_pos hp] at h; exact absurd rfl h
-          · rw [if_neg hp]
-  | snapBegin =>
-    exfalso; apply h; unfold stepR; dsimp only
-    split <;> [rfl; (split <;> rfl)]
-  | snapPersist =>
-    exfalso; apply h; unfold stepR; dsimp only
-    split
-    · rfl
-    · split <;> rfl
-  | install j =>
-    exfalso; apply h; unfold stepR; dsimp only
-    split
-    · rfl
-    · split
-      · rfl
-      · split <;> rfl
-  | shutdown =>
-    exfalso; apply h; unfold stepR; dsimp only
-    split
-    · rfl
-    · split <;> rfl
-  | kill =>
-    exfalso; apply h; unfold stepR; dsimp only
-    split <;> rfl
-  | restart =>
-    exfalso; apply h; unfold stepR; dsimp only
-    split
-    · rfl
-    · split <;> rfl
-  | offline => exfalso; apply h; rfl
+    (stepR ops r src e).2.calls ≠ [] → e = .apply ∧ (stepR ops r src e).2.res = .ok :=
+  no_other_calls_core ops r src e
+
+/-! ### the Spec clauses on the model's own observations -/
+
+/-- For every history without origins and every schedule with point-in-time snapshots, the observations
+    the model predicts (`modelTrace`: after each event, what the peer serves, how far its Raft is, the
+    tracker calls) satisfy every clause of the property as the Spec states it. The driver compares the
+    implementation's observations with exactly these. -/
+theorem model_holds_partial (ops : List Op) (n : Nat) (evs : List (Nat × Ev)) (hdec : allDecodable ops)
+    (hat : atomicRun ops (initSys n) evs = true) (hidx : ∀ ie ∈ evs, ie.1 < n) :
+    holds ops (modelTrace ops (initSys n) evs) = true := by
+  have hlen : (initSys n).length = n := by simp [initSys]
+  have h := modelTrace_clauses hdec evs (sinv_init true ops n) hat (by rw [hlen]; exact hidx)
+  unfold holds clauses
+  simp only [List.all_cons, List.all_nil, Bool.and_true, Bool.and_eq_true, List.all_eq_true]
+  exact ⟨fun o ho => (h o ho).1, fun o ho => (h o ho).2.1, fun o ho => (h o ho).2.2.1,
+         fun o ho => (h o ho).2.2.2.1, fun o ho => (h o ho).2.2.2.2.1, fun o ho => (h o ho).2.2.2.2.2⟩
+
+example : holds [Op.pin (pinCid 1), .unpin (pinCid 1), .pin (pinCid 2)]
+    (modelTrace [Op.pin (pinCid 1), .unpin (pinCid 1), .pin (pinCid 2)] (initSys 2)
+      [(0, .apply), (0, .snapBegin), (0, .snapPersist), (0, .apply), (1, .install 0), (1, .apply), (0, .shutdown),
+       (0, .offline), (0, .restart), (0, .apply)]) = true := by decide
+
+/-- and the K09 schedule really breaks the clauses (the driver reports it as a known finding) -/
+example : holds k09Ops (modelTrace k09Ops (initSys 1) k09Evs) = false := by decide
 
 end CV.C01
